@@ -1,4 +1,5 @@
 import DoviModel.Model.RpuWrite
+import DoviModel.Props.SourceTie
 /-! # C02 — reported values are the values encoded; profile / EL classification follows the documented rules -/
 namespace Dovi.C02
 open Dovi
@@ -51,5 +52,21 @@ theorem el_type_rule (m : Mapping) :
 /-! non-vacuity -/
 example : ({ vdr_rpu_profile := 1, el_spatial_resampling_filter_flag := true, vdr_bit_depth_minus8 := 4 } : Header).getDoviProfile = 7 := by decide
 example : ({ vdr_rpu_profile := 0, bl_video_full_range_flag := true } : Header).getDoviProfile = 5 := by decide
+
+/-- **source tie** (regenerated on every run from /repo by tools/gen_source_layouts.py): the field widths,
+`length > k` thresholds, field order, `bytes_size()` and `required_bits()` of every extension-block level and
+the 32 codings of the `vdr_dm_data` payload, as they stand in the Rust sources now, are the tables the model —
+and therefore every theorem about the reported values — is built on -/
+theorem source_layouts_agree :
+    (∀ level length, Src.blockParse level length = blockParseLayout level length) ∧
+    (∀ level length, Src.blockWrite level length = blockWriteLayout level length) ∧
+    (∀ level length, Src.blockBytes level length = blockBytes level length) ∧
+    (∀ level length, level ≠ 0 → Src.blockRequired level length = blockRequiredBits level length) ∧
+    Src.dmMainParse.map SourceTie.conv = dmMainParseLayout ∧
+    Src.dmMainWrite.map SourceTie.conv = dmMainWriteLayout ∧
+    Src.signedFields = [(2, 6)] :=
+  ⟨SourceTie.parse_layout_from_source, SourceTie.write_layout_from_source, SourceTie.bytes_from_source,
+   SourceTie.required_from_source, SourceTie.dm_parse_from_source, SourceTie.dm_write_from_source,
+   SourceTie.signed_from_source⟩
 
 end Dovi.C02
